@@ -69,6 +69,25 @@ def handleIds (toks : List String) : Option String :=
         | none => false
     let n := (fs.map (·.2)).sum
     some (if walk 1 sorted && tot == List.range' 1 n then "ok" else "bad C05:ids-not-1..N-by-path-and-source-order")
+  -- serve <entry>… | <dir:count>…   →  indices of the main packages that start the service
+  -- (tokens are protocol-encoded; the count stands for the length of the component's id list)
+  | "serve" :: rest =>
+    let es := (rest.takeWhile (· != "|")).map (fun t => String.ofList (decodeTok t))
+    let ms := ((rest.dropWhile (· != "|")).drop 1).map (fun t =>
+      let (d, c) := parseCount t
+      (String.ofList (decodeTok d), List.range c))
+    some (let r := serviceStarts es ms; if r.isEmpty then "-" else natList r)
+  -- judge:serve <entry>… | <dir:count>… | <impl indices…> : exactly the selected main packages
+  -- (listed, or `*`) whose component lists an id start the service, each once, with their own index
+  | "judge:serve" :: rest =>
+    let es := (rest.takeWhile (· != "|")).map (fun t => String.ofList (decodeTok t))
+    let r1 := (rest.dropWhile (· != "|")).drop 1
+    let ms := (r1.takeWhile (· != "|")).map (fun t =>
+      let (d, c) := parseCount t
+      (String.ofList (decodeTok d), c))
+    let got := ((r1.dropWhile (· != "|")).drop 1).filterMap String.toNat?
+    let want := (ms.zipIdx.filter (fun (p : (String × Nat) × Nat) => (es.contains "*" || es.contains p.1.1) && p.1.2 > 0)).map (·.2)
+    some (if got == want then "ok" else "bad C05:service-start-selection")
   | "closure" :: rest =>
     match parseGraph rest with
     | some (fuel, main, imp) => some (natList (sortInts (collect imp fuel main [])))
